@@ -131,10 +131,193 @@ def crash(p: int, k1: int, k2: int, k3: int, e1: int, e2: int, e3: int, e4: int,
         M.uninstall(FC)
 
 
+class Killed(Exception):
+    """the writing process is killed (SIGKILL): nothing it had not yet handed to the kernel happens any more"""
+
+
+SCENARIOS2 = {
+    # (phase 1 sets, phase 2 sets by the restarted process).  Phase 2 repeats the last value of phase 1: an implementation that
+    # skips "redundant" writes by looking at the visible file content sees the un-synced bytes of the killed process.
+    "reset-same-value": ([("a", 0)], [("a", 0), ("b", 1)]),
+    "reset-after-overwrite": ([("a", 1), ("a", 0)], [("a", 0)]),
+    "nested-reset": ([("d/b", 2)], [("d/b", 2), ("a", 0)]),
+}
+
+
+def crash2(p1: int, p2: int, k1: int, k2: int, k3: int, n1: int, n2: int, n3: int) -> bool:
+    """
+    pre: 0 <= p1 <= 40 and 0 <= p2 <= 120
+    pre: 0 <= k1 <= 1 and 0 <= k2 <= 1 and 0 <= k3 <= 1
+    pre: 0 <= n1 <= 80 and 0 <= n2 <= 80 and 0 <= n3 <= 80
+    post: _
+    """
+    # Two failures in a row: the writing process is KILLED before its p1-th file-system operation (the page cache survives: what
+    # it had written stays visible, but is not durable), a restarted store performs more sets on the same files, then the
+    # machine loses power when log[:p2] had been issued.  Every set that RETURNED (in either process) must survive.
+    enter()
+    first, second = SCENARIOS2[cfg("scenario", "reset-same-value")]
+    fs = M.ModelFS()
+    state = {"n": 0, "dead": False}
+
+    def hook(op, path):
+        if state["dead"]:
+            raise Killed()
+        state["n"] += 1
+        if state["n"] > p1:
+            state["dead"] = True
+            raise Killed()
+    M.install(FC, fs)
+    try:
+        spans = []
+        fs.hook = hook
+        st = KVS.KeyValueStorage("/", max_memory=1000)
+        for (k, vi) in first:
+            a = len(fs.log)
+            try:
+                st.set(k, VALUES[vi])
+            except Killed:
+                spans.append((k, vi, a, None))           # never returned
+                break
+            spans.append((k, vi, a, len(fs.log)))
+        # restart: a new process, the same (volatile) file system
+        state["dead"] = False; fs.hook = None
+        M.install(FC, fs)
+        st = KVS.KeyValueStorage("/", max_memory=1000)
+        for (k, vi) in second:
+            a = len(fs.log)
+            st.set(k, VALUES[vi])
+            spans.append((k, vi, a, len(fs.log)))
+        log = list(fs.log)
+        if p2 > len(log):
+            p2 = len(log)
+        ch = Chooser([k1, k2, k3], [1, 1, 1, 1, 1, 1], [n1, n2, n3])
+        ch.initial = {}
+        image = M.crash_image(log, p2, ch, model="F")
+        expect = {}; torn = set()
+        for (k, vi, a, b) in spans:                      # chronological
+            if b is None:
+                torn.add(k); expect.pop(k, None)         # killed inside this set: old, new or partial content, all allowed
+            elif b <= p2:
+                expect[k] = vi; torn.discard(k)          # returned before the power loss (a set that issued nothing: a == b)
+            elif a < p2:
+                torn.add(k)                              # in flight at the power loss
+            # else: not started yet
+        fs2 = M.fs_from_image(image)
+        M.install(FC, fs2)
+        st2 = KVS.KeyValueStorage("/", max_memory=1000)
+        for k in sorted(set(x[0] for x in spans)):
+            if k in torn:
+                try:
+                    st2.get(k)
+                except Exception:
+                    pass
+                continue
+            try:
+                r = st2.get(k)
+            except Exception:
+                return verdict(False)                    # a key that is not being written must never fail
+            if k in expect:
+                want = VALUES[expect[k]]
+                if r != want or type(r) is not type(want):
+                    return verdict(False)
+        return verdict(True)
+    finally:
+        M.uninstall(FC)
+
+
+class _Redundant(Exception):
+    pass
+
+
+def set_during_get(c0: int, c1: int, c2: int, c3: int, c4: int, c5: int, c6: int, c7: int) -> bool:
+    """
+    pre: 0 <= c0 <= 2 and 0 <= c1 <= 2 and 0 <= c2 <= 2 and 0 <= c3 <= 2
+    pre: 0 <= c4 <= 2 and 0 <= c5 <= 2 and 0 <= c6 <= 2 and 0 <= c7 <= 2
+    post: _
+    """
+    # "Once a set has returned the value is durable" must also hold when another thread is reading the same key through the same
+    # store: the schedule of the reader, the writer and the cache's worker tasks is symbolic (real threads run one at a time by
+    # vt.sched, preemption points at every model file-system operation, task start and future wait).  After set() has returned
+    # the machine loses power: only synced data survives.
+    enter()
+    from vt import sched as S
+    from klongpy.db.helpers import serialize_obj
+    choices = [c0, c1, c2, c3, c4, c5, c6, c7]
+    used = [0]
+
+    def choose(n):
+        i = used[0]; used[0] += 1
+        if i >= len(choices):
+            return 0
+        c = choices[i]
+        if c >= n:
+            raise _Redundant()
+        return pick(list(range(n)), c)
+    sch = S.Scheduler(choose, preemptions=cfg("preemptions", 3))
+    fs = M.ModelFS()
+    key = cfg("key", "a")
+    fs.files["/" + key] = serialize_obj("OLD")
+    initial = {"/" + key: fs.files["/" + key]}
+    pts = ("open-r", "read", "open-w", "write", "close", "fsync")
+    fs.hook = lambda op, path: sch.point(op + " " + path) if op in pts else None
+    saved_lock = FC.Lock
+    out = {}
+    try:
+        M.install(FC, fs, executor=S.Executor(sch))
+        FC.Lock = sch.lock
+        st = KVS.KeyValueStorage("/", max_memory=1000)
+
+        def reader():
+            sch.point("call get")
+            try:
+                out["get"] = st.get(key)
+            except Exception as e:
+                out["get_exc"] = type(e).__name__
+
+        def writer():
+            sch.point("call set")
+            st.set(key, "NEW")
+            out["set_returned_at"] = len(fs.log)
+        sch.spawn("reader", reader, ())
+        sch.spawn("writer", writer, ())
+        try:
+            sch.run()
+        except _Redundant:
+            return True
+        except S.Deadlock:
+            return verdict(False)
+        for a in sch.actors:
+            if a.kind == "client" and a.exc is not None:
+                return verdict(False)
+        if "set_returned_at" not in out or "get_exc" in out:
+            return verdict(False)
+        if out.get("get") not in ("OLD", "NEW"):
+            return verdict(False)
+        # power loss right after set() returned: nothing unsynced survives
+        log = list(fs.log)[:out["set_returned_at"]]
+        ch = Chooser([1, 1, 1], [1, 1, 1, 1, 1, 1], [0, 0, 0])
+        ch.initial = initial
+        image = M.crash_image(log, len(log), ch, model="F")
+        M.uninstall(FC); FC.Lock = saved_lock
+        fs2 = M.fs_from_image(image)
+        M.install(FC, fs2)
+        try:
+            r = KVS.KeyValueStorage("/", max_memory=1000).get(key)
+        except Exception:
+            return verdict(False)
+        return verdict(r == "NEW")
+    finally:
+        sch.abort()
+        FC.Lock = saved_lock
+        M.uninstall(FC)
+
+
 def bounds(tier):
     return {"scenarios": sorted(SCENARIOS) if tier != "quick" else ["same-key-twice", "two-keys", "nested-then-flat"],
             "crash point": "every position 0..len(trace) of the recorded operation trace (symbolic)",
             "lost data": "per unsynced file: nothing persisted, or any prefix length (symbolic); per unsynced new entry: survives or not (symbolic)",
+            "concurrent reader": "one get and one set of the same key through one store, symbolic schedule with <= 3 (4) preemptions",
+            "two failures": "process kill before any file-system operation of phase 1, restart, repeated sets, power loss at any point of the combined trace",
             "persistence model": "F for all scenarios; P for overwrites of keys whose entries are already durable"}
 
 
@@ -146,6 +329,10 @@ def obligations(tier):
         obs.append({"name": "crash model=F %s" % s, "fn": "crash", "cfg": {"scenario": s, "model": "F"}, "timeout": 200 if q else 900})
         obs.append({"name": "crash model=P pre-existing keys %s" % s, "fn": "crash",
                     "cfg": {"scenario": s, "model": "P", "pre_existing": True}, "timeout": 200 if q else 900})
+    obs.append({"name": "set concurrent with a get of the same key (symbolic schedule), then power loss", "fn": "set_during_get",
+                "cfg": {"preemptions": 3 if q else 4}, "timeout": 300 if q else 900})
+    for s in (["reset-same-value"] if q else sorted(SCENARIOS2)):
+        obs.append({"name": "kill, restart, re-set, power loss: %s" % s, "fn": "crash2", "cfg": {"scenario": s}, "timeout": 300 if q else 900})
     return obs
 
 
